@@ -174,7 +174,7 @@ def parse_template(path):
             else:
                 if kw == "end":
                     out.append(("fn", cur)); cur = None; cur_dir = None
-                elif kw in ("props", "nocanary", "mutself", "macro", "block", "exprblock", "binops", "refarg", "addarg"):
+                elif kw in ("props", "nocanary", "mutself", "macro", "block", "exprblock", "closureexpr", "binops", "refarg", "addarg"):
                     cur.directives.append((kw, rest, [], i + 1))
                 else:
                     cur_dir = (kw, rest, [], i + 1)
@@ -494,6 +494,31 @@ def process_fn(repo, glob, fs, log):
             tlo, thi = first, br[ob] + 1
             expr_wrap = True
             log.append({"fn": fs.fid(), "rule": "E11", "line": line_of(src, s), "note": f"verification target is the expression `{needle} .. }}` of {fs.name}"})
+        if kw == "closureexpr":
+            # E11: the verification target is the EXPRESSION body of a closure `|x| expr` given by its header: from the first
+            # token after the header to the enclosing close bracket or the next top-level comma
+            p = parse_quoted(rest)
+            needle = [x[1] for x in p if x[0] == "q"][0]
+            nth = 0
+            for x in p:
+                if x[0] == "w" and x[1].isdigit(): nth = int(x[1])
+            s, e = find_text(src, lo, hi, needle, nth, f"{fs.name} closureexpr")
+            enc = None
+            for o, c in br.items():
+                if toks[o].start < s and toks[c].start >= e and (enc is None or toks[o].start > toks[enc[0]].start):
+                    enc = (o, c)
+            if enc is None:
+                raise VxError(f"lost anchor: closureexpr `{needle}` is not inside an argument list")
+            kb = next(k for k in range(tlo, thi) if toks[k].start >= e)
+            endk = enc[1]; k = kb
+            while k < enc[1]:
+                if toks[k].kind == "open": k = br[k] + 1; continue
+                if toks[k].kind == "punct" and toks[k].text == ",": endk = k; break
+                k += 1
+            lo, hi = toks[kb].start, toks[endk - 1].end
+            tlo, thi = kb, endk
+            expr_wrap = True
+            log.append({"fn": fs.fid(), "rule": "E11", "line": line_of(src, s), "note": f"verification target is the body of the closure `{needle}` of {fs.name}"})
         if kw == "block":
             p = parse_quoted(rest)
             needle = [x[1] for x in p if x[0] == "q"][0]
@@ -603,7 +628,7 @@ def process_fn(repo, glob, fs, log):
     loop_for = {}
     for (kw, rest, payload, tl) in fs.directives:
         what = f"{fs.name} (template line {tl})"
-        if kw in ("block", "exprblock", "nocanary", "props", "macro"):
+        if kw in ("block", "exprblock", "closureexpr", "nocanary", "props", "macro"):
             continue
         if kw == "localmacro":
             # E4: a `macro_rules!` defined inside the function, single arm with `$x:ty`/`$x:expr`/`$x:ident` parameters, is
@@ -966,7 +991,7 @@ def main():
                 continue
             fs = val
             r = process_fn(repo, glob, fs, log)
-            block_mode = any(d[0] in ("block", "exprblock") for d in fs.directives)
+            block_mode = any(d[0] in ("block", "exprblock", "closureexpr") for d in fs.directives)
             if not block_mode:
                 a, b = check_sig(fs, r["real_sig"])
                 # an unnamed parameter `_` of the real signature may be given any `_`-prefixed name (Verus needs an identifier)
